@@ -1352,6 +1352,8 @@ class Interp:
             if attr == "__name__":
                 return VConst(base.func.name if base.func else "<lambda>")
             return VUnknown("funcattr:" + attr)
+        if isinstance(base, VUnknown) and getattr(base, "storage_of", None) is not None and attr == "data_ptr":
+            return VBound(base, "data_ptr")
         if isinstance(base, VUnknown):
             u = VUnknown("%s.%s" % (base.tag, attr), "unknown", base.origin)
             return u
@@ -1417,6 +1419,8 @@ class Interp:
                         return False
                     raise
             return False
+        if isinstance(objv, VTens) and attr in ("untyped_storage", "storage", "data_ptr", "shape", "dtype", "device", "dim"):
+            return True if objv.kind == "tensor" else (False if attr in ("untyped_storage", "storage", "data_ptr") else True)
         return None
 
     def super_attr(self, sup, attr, node):
